@@ -17,6 +17,8 @@ Category ==
   [ \* locals
     assign |-> "local", opassign |-> "local", multiassign |-> "local", blockparam |-> "local", braceblockparam |-> "local",
     methodparam |-> "local", defaultparam |-> "local", keywordparam |-> "local", restparam |-> "local",
+    keywordpair |-> "local",     \* two keyword parameters, the other one spelt `vq2`: for the spelling `vq` one name is the
+                                 \* other plus a digit, and "vq2:" sorts before "vq:" although "vq" sorts before "vq2"
     patternvar |-> "local", patternarray |-> "local", patternbind |-> "local", patternalt |-> "local",
     rescuevar |-> "local", forvar |-> "local", interpolation |-> "local", condassign |-> "local",
     \* methods
